@@ -175,6 +175,29 @@ def spec_closure(pid):
     return sorted(t[:-1] for t in seen if t.startswith("Spec/"))
 
 
+def stmt_closure(pid):
+    """Model/*.v and Proofs/*.v files in the dependency closure of Properties/<pid>.v (pinned by statement hash)"""
+    dep = os.path.join(COQ, ".Makefile.d")
+    if not os.path.exists(dep):
+        return []
+    deps = {}
+    for line in open(dep):
+        if ":" not in line:
+            continue
+        lhs, rhs = line.split(":", 1)
+        tgt = [t for t in lhs.split() if t.endswith(".vo")]
+        if tgt:
+            deps[tgt[0]] = [d for d in rhs.split() if d.endswith(".vo")]
+    seen, todo = set(), ["Properties/%s.vo" % pid]
+    while todo:
+        t = todo.pop()
+        if t in seen:
+            continue
+        seen.add(t)
+        todo.extend(deps.get(t, []))
+    return sorted(t[:-1] for t in seen if t.startswith("Model/") or t.startswith("Proofs/"))
+
+
 def build_proofs(pid, cfg, log, tier="quick"):
     """returns dict(proof_ok, obligations, discharged, assumptions, problems)"""
     res = dict(proof_ok=False, obligations=0, discharged=0, assumptions={}, problems=[])
@@ -254,6 +277,14 @@ def build_proofs(pid, cfg, log, tier="quick"):
         got = hashlib.sha256(open(os.path.join(COQ, key), "rb").read()).hexdigest()
         if want.get(key) != got:
             res["problems"].append("statement hash of %s differs from statements.lock (the meaning of the pinned statements lives in the Spec files they mention)" % key)
+    # definitions that pinned statements mention also live in Model/ and Proofs/ files: those are pinned by their
+    # statement hash (text without comments and proof scripts, tools/stmt_hash.py)
+    sys.path.insert(0, os.path.join(VERIF, "tools"))
+    from stmt_hash import stmt_hash
+    for key in stmt_closure(pid):
+        full = os.path.join(COQ, key)
+        if os.path.exists(full) and want.get("stmt:" + key) != stmt_hash(full):
+            res["problems"].append("statement hash of %s (definitions and lemma statements, proofs left out) differs from statements.lock" % key)
     hits = forbidden_scan()
     if hits:
         res["problems"].append("forbidden tokens: " + "; ".join(hits[:10]))
@@ -555,7 +586,10 @@ def check(pid, tier="quick", seed=0, replay=None):
         print("\n".join(ls))
         print("\n".join(rl))
         cases, obs, res, model = analyse(ls, rl)
-        bad = [c for c, r in res.items() if r.get("oracle") == "0" and r.get("class") not in known]
+        # a replay fails on an oracle failure outside the known classes, on a disagreement between model and
+        # implementation (the replay file of a broken correspondence must reproduce) and on a case without a verdict
+        bad = [c for c, r in res.items() if (r.get("oracle") == "0" and r.get("class") not in known) or r.get("agree") == "0"]
+        bad += [c for c in cases if c not in res]
         if bad:
             print("VIOLATION property=%s replay=%s" % (pid, replay))
             return 1
@@ -621,6 +655,10 @@ def check(pid, tier="quick", seed=0, replay=None):
             tagcount[t] = tagcount.get(t, 0) + 1
         if r.get("nontrivial") == "1":
             nontrivial.add(hashlib.sha1(cases.get(c, c).encode()).hexdigest())
+    # a case the harness could not run (a sparse 4 GiB mapping the machine refused) checks nothing: the regression cases
+    # of F38 / F39 live there, so this is an infrastructure problem and not a pass
+    if tagcount.get("skipped-nomem"):
+        infra.append("%d case(s) were skipped because a large sparse mapping could not be created (tag skipped-nomem)" % tagcount["skipped-nomem"])
     implfaults = {}
     for c, o in obs.items():
         if o.startswith("!"):
